@@ -128,13 +128,75 @@ def unsize_to_fmt_object(F, fns):
                     yield f, st
 
 
+def for_loop_order_insensitive(F, call, deterministic):
+    """for-loop over a hash container (typed HIR): accepted when the body has no early exit and only accumulates
+    into ordered/hash containers; for deterministic-hasher containers (shard/insertion order only) pushes into
+    local Vecs that are sorted after the loop are accepted as well"""
+    from facts import walk as hwalk
+    f = call.fn
+    tree = F.hir.get(f.root or f.id)
+    if tree is None:
+        return False, "no HIR"
+    loops = [n for n in hwalk(tree["body"]) if n["k"] == "Match" and n.get("src") == "ForLoopDesugar" and n["line"] == call.line
+             and len(n["arms"]) == 1 and n["arms"][0]["pat"]["k"] == "P.Binding"]
+    if len(loops) != 1:
+        return False, "for-loop not found in the typed HIR"
+    lp = loops[0]
+    body = lp["arms"]
+    for n in hwalk(body):
+        if n["k"] in ("Ret", "Break") and not any("desugar" in m for m in (n.get("mac") or [])):
+            return False, "the loop body can leave the loop early (%s): which element is seen first matters" % n["k"]
+        if n["k"] == "Match" and (n.get("src") or "").startswith("TryDesugar"):
+            return False, "the loop body propagates an error with `?`: which failing element is seen first matters"
+    pushed = set()
+    for n in hwalk(body):
+        if n["k"] == "MethodCall":
+            recv_ty = (n.get("recv_ty") or "")
+            base = [x["name"] for x in hwalk(n["recv"]) if x["k"] == "Path" and x.get("res") == "local"]
+            m = n["method"]
+            if m in ("push", "push_str", "extend", "append", "insert", "entry", "or_insert_with", "or_insert", "or_default", "remove", "push_back"):
+                t = recv_ty.replace("&mut ", "").replace("&", "")
+                if re.match(r"^std::collections::(BTreeMap|BTreeSet|HashMap|HashSet)<", t) or "btree_map::Entry" in t or "hash_map::Entry" in t:
+                    continue
+                if t.startswith("std::vec::Vec<") and m == "push":
+                    r0 = n["recv"]
+                    while r0["k"] in ("AddrOf", "Unary"):
+                        r0 = r0["e"]
+                    if r0["k"] == "Path" and base and deterministic:
+                        pushed.add(base[0])
+                        continue
+                    if r0["k"] == "MethodCall" and deterministic and any(x["k"] == "MethodCall" and x["method"] == "entry" for x in hwalk(r0)):
+                        continue   # push into the per-key Vec obtained from entry() of an ordered map (one entry per visited key)
+                    return False, "the loop body pushes into a Vec in hash order"
+                if m in ("entry", "or_insert_with", "or_insert", "or_default"):
+                    continue
+                return False, "the loop body mutates %s with %s in hash order" % (t[:40], m)
+        if n["k"] in ("Assign", "AssignOp"):
+            return False, "the loop body assigns to a variable in hash order"
+    # every Vec pushed to is sorted after the loop
+    end_line = max([x.get("line", 0) for x in hwalk(body)] + [lp["line"]])
+    for v in sorted(pushed):
+        sorts = [n for n in hwalk(tree["body"]) if n["k"] == "MethodCall" and n["method"] in ("sort", "sort_by", "sort_by_key", "sort_unstable", "sort_unstable_by", "sort_unstable_by_key")
+                 and [x["name"] for x in hwalk(n["recv"]) if x["k"] == "Path" and x.get("res") == "local"] == [v] and n["line"] > end_line]
+        if not sorts:
+            return False, "Vec `%s` filled in hash order is not sorted after the loop" % v
+    return True, "for-loop without early exit that only accumulates into ordered/hash containers%s" % (" and Vecs sorted after the loop (%s)" % ", ".join(sorted(pushed)) if pushed else "")
+
+
 def judge_iteration(F, call):
     """is the iterator produced by this ITER call consumed order-insensitively? -> (ok, why)"""
     m = method_of(call.best)
     if m in ("fmt", "serialize", "retain", "retain_mut", "alter_all"):
         return False, "%s visits the entries in hash order" % m
     flow = FnFlow(call.fn)
-    return flow.order_insensitive_consumer(call, closure_lookup=lambda path: F.fns.get(F._callee_gid(call.fn.crate, path)))
+    ok, why = flow.order_insensitive_consumer(call, closure_lookup=lambda path: F.fns.get(F._callee_gid(call.fn.crate, path)))
+    if not ok and ("for-loop" in why or "next" in why or "no consuming call" in why or "into_iter" in why):
+        det = hasher_of(call).startswith("deterministic")
+        ok2, why2 = for_loop_order_insensitive(F, call, det)
+        if ok2:
+            return True, why2
+        return False, why + "; " + why2
+    return ok, why
 
 
 def site_key(call, m):
